@@ -66,6 +66,7 @@ structure Orders where
   lockStore : Core.Ord
   lockFence : Core.Ord
   unlockStore : Core.Ord
+  releaseStore : Core.Ord
   tickRmw : Core.Ord
   tickFence : Option Core.Ord
   scanTbl : Core.Ord
@@ -83,7 +84,7 @@ structure Orders where
 /-- the orders written in the source being checked (regenerated on every run) -/
 def genOrders : Orders :=
   { lockLoad := Gen.Epoch.lockLoadOrd, lockStore := Gen.Epoch.lockStoreOrd, lockFence := Gen.Epoch.lockFenceOrd,
-    unlockStore := Gen.Epoch.unlockStoreOrd, tickRmw := Gen.Epoch.tickRmwOrd, tickFence := Gen.Epoch.tickFenceOrd,
+    unlockStore := Gen.Epoch.unlockStoreOrd, releaseStore := Gen.Epoch.releaseStoreOrd, tickRmw := Gen.Epoch.tickRmwOrd, tickFence := Gen.Epoch.tickFenceOrd,
     scanTbl := Gen.Epoch.tableLoadOrd, scanCount := Gen.Epoch.countLoadOrd, scanSlot := Gen.Epoch.scanSlotOrd,
     mint := Gen.Epoch.mintOrd, freePush := Gen.Epoch.freePushOrd, freePop := Gen.Epoch.freePopOrd,
     tblIndex := Gen.Epoch.tableIndexLoadOrd, ensureLoad := Gen.Epoch.ensureLoadOrd,
@@ -121,7 +122,9 @@ inductive Pc
   | lk3 (i v : Nat)                 --   `atomic_thread_fence(seq_cst)`
   | ul0 (i : Nat)                   -- unlock(i): `_slots[i]`
   | ul1 (i : Nat)                   --   `slot.version.store(UINT64_MAX, release)`, `lock_times -= 1`
-  | rl0 (i : Nat)                   -- Accessor::release / thread exit: `deallocate(i)`
+  | rl0 (i : Nat)                   -- Accessor::release → unregister_accessor(i): `_slots[i]`
+  | rl1 (i : Nat)                   --   region still open: `lock_times = 0; slot.version.store(UINT64_MAX, release)`
+  | rl2 (i : Nat)                   --   `deallocate(i)` (also: thread exit returning its thread id)
   | tk0                             -- tick: `_version.fetch_add(1, …)`
   | tk1 (e : Nat)                   --   non-x86 branch: `atomic_thread_fence(seq_cst)`
   | sc0                             -- low_water_mark: `_slots.snapshot()`
@@ -133,7 +136,7 @@ inductive Pc
 /-- the call the thread is in operates on slot `i` -/
 def Pc.uses : Pc → Nat → Bool
   | .en0 j _, i | .en1 j _ _, i | .lk0 j, i | .lk1 j, i | .lk2 j _, i | .lk3 j _, i
-  | .ul0 j, i | .ul1 j, i | .rl0 j, i => j == i
+  | .ul0 j, i | .ul1 j, i | .rl0 j, i | .rl1 j, i | .rl2 j, i => j == i
   | _, _ => false
 
 inductive Own | unalloc | free | held (t : Nat)
@@ -280,6 +283,18 @@ def stepThread (c : Cfg) (o : Orders) (s : State) (t : Nat) (ch : Nat) : Option 
                    fv := upd s.fv i none, av := upd s.av i (m.tv t).cur },
           actSt (.slot i) o.unlockStore MAX)
   | .rl0 i =>
+    match s.mem.read t .tbl o.tblIndex ch with
+    | none => none
+    | some (m, nb) =>
+      some (if s.lt i ≠ 0 then { s with mem := m, pc := upd s.pc t (.rl1 i) }
+            else { s with mem := m, pc := upd s.pc t (.rl2 i) },
+            actLd .tbl o.tblIndex nb)
+  | .rl1 i =>
+    let m := s.mem.write t (.slot i) o.releaseStore MAX
+    some ({ s with mem := m, lt := upd s.lt i Gen.Epoch.unregisterDepthAfter, pc := upd s.pc t (.rl2 i),
+                   fv := upd s.fv i none, av := upd s.av i (m.tv t).cur },
+          actSt (.slot i) o.releaseStore MAX)
+  | .rl2 i =>
     match s.mem.rmw t (.fl i) o.freePush id with
     | none => none
     | some (m, old) =>
@@ -331,6 +346,8 @@ def callLock (s : State) (t i : Nat) : State := { s with pc := upd s.pc t (.lk0 
 def callLockT (s : State) (t i : Nat) : State := { s with pc := upd s.pc t (.en0 i .kLock) }
 def callUnlock (s : State) (t i : Nat) : State := { s with pc := upd s.pc t (.ul0 i) }
 def callRelease (s : State) (t i : Nat) : State := { s with pc := upd s.pc t (.rl0 i) }
+/-- thread exit (thread-local style): the thread id goes back to its allocator; `Epoch` is not involved -/
+def callReleaseT (s : State) (t i : Nat) : State := { s with pc := upd s.pc t (.rl2 i) }
 def callTick (s : State) (t : Nat) : State := { s with pc := upd s.pc t .tk0 }
 def callScan (s : State) (t : Nat) : State := { s with pc := upd s.pc t .sc0, sv := upd s.sv t (s.cur t) }
 /-- the Accessor of slot `i` changes hands -/
@@ -361,8 +378,11 @@ inductive Step (c : Cfg) (o : Orders) : State → State → Prop
   | lockT (s : State) (t i : Nat) : s.pc t = .idle → c.tls = true → s.tslot t = some i → Step c o s (callLockT s t i)
   /-- `unlock` needs a matching `lock` (BasicLockable) -/
   | unlock (s : State) (t i : Nat) : s.pc t = .idle → s.own i = .held t → 1 ≤ s.lt i → Step c o s (callUnlock s t i)
-  /-- `Accessor::release` / thread exit: by the holder, with no region open -/
-  | release (s : State) (t i : Nat) : s.pc t = .idle → s.own i = .held t → s.lt i = 0 → Step c o s (callRelease s t i)
+  /-- `Accessor::release` / `~Accessor`: by the holder, at any time (an open region is closed) -/
+  | release (s : State) (t i : Nat) : s.pc t = .idle → c.tls = false → s.own i = .held t → Step c o s (callRelease s t i)
+  /-- thread exit in thread-local style: outside any region -/
+  | releaseT (s : State) (t i : Nat) : s.pc t = .idle → c.tls = true → s.own i = .held t → s.lt i = 0 →
+      Step c o s (callReleaseT s t i)
   | tick (s : State) (t : Nat) : s.pc t = .idle → Step c o s (callTick s t)
   | scan (s : State) (t : Nat) : s.pc t = .idle → Step c o s (callScan s t)
   /-- moving an Accessor (with or without an open region) to thread `t2`: the receiver must have
@@ -383,7 +403,7 @@ def latest (s : State) (l : Loc) : Nat := s.mem.len l - 1
 /-- location the next action of thread `t` reads (for the SC restriction / the replay driver) -/
 def nextLoc (c : Cfg) (s : State) (t : Nat) : Loc :=
   match s.pc t with
-  | .en0 _ _ | .en1 _ _ _ | .lk0 _ | .ul0 _ | .sc0 => .tbl
+  | .en0 _ _ | .en1 _ _ _ | .lk0 _ | .ul0 _ | .rl0 _ | .sc0 => .tbl
   | .lk1 _ => .gver
   | .sc1 _ => .nacc
   | .sc2 _ => .ntid
@@ -404,7 +424,7 @@ def Skel.lock_tls : List Site := [.call "current_thread_id", .call "ensure", .ca
 def Skel.unlock_tls : List Site := [.call "current_thread_id", .call "unlock"]
 def Skel.create_accessor : List Site := [.call "allocate", .call "ensure"]
 def Skel.accessor_number : List Site := [.call "end"]
-def Skel.unregister_accessor : List Site := [.call "deallocate"]
+def Skel.unregister_accessor : List Site := [.store "slot.version" .rel, .call "deallocate"]
 def Skel.accessor_lock : List Site := [.call "lock"]
 def Skel.accessor_unlock : List Site := [.call "unlock"]
 def Skel.accessor_release : List Site := [.call "unregister_accessor"]
